@@ -132,6 +132,8 @@ pub struct Counters {
 	pub ser_ok: u64,
 	pub ser_err: u64,
 	pub reader_schema_used_after_reader_drop: u64,
+	pub freeze_err_unnamed_cycle: u64,
+	pub known_answers: u64,
 }
 impl Counters {
 	pub fn fields(&self) -> Vec<(&'static str, u64)> {
@@ -155,6 +157,8 @@ impl Counters {
 			("ser_ok", self.ser_ok),
 			("ser_err", self.ser_err),
 			("reader_schema_used_after_reader_drop", self.reader_schema_used_after_reader_drop),
+			("freeze_err_unnamed_cycle", self.freeze_err_unnamed_cycle),
+			("known_answers", self.known_answers),
 		]
 	}
 	pub fn add(&mut self, o: &Counters) {
@@ -183,6 +187,8 @@ impl Counters {
 		self.ser_ok = v[16];
 		self.ser_err = v[17];
 		self.reader_schema_used_after_reader_drop = v[18];
+		self.freeze_err_unnamed_cycle = v[19];
+		self.known_answers = v[20];
 	}
 	pub fn to_line(&self) -> String {
 		self.fields().iter().map(|(k, v)| format!("{k}={v}")).collect::<Vec<_>>().join(" ")
@@ -213,9 +219,13 @@ pub struct World<'f> {
 	fx: &'f Fixtures,
 	/// parsed once per process and cloned by `Parse` / `ParseS` when set (Miri runs: parsing is safe
 	/// code and costs 0.5 s per call there)
-	proto: Option<&'f SchemaMut>,
+	proto: Option<&'f fixtures::Protos>,
 	m: Option<SchemaMut>,
 	m_state: fixtures::MState,
+	/// does the schema in the slot describe SCHEMA_TEXT on the wire (known answers apply)?
+	s_wire: bool,
+	arc_wire: [bool; 2],
+	c_wire: bool,
 	s: Option<*mut Schema>,
 	arcs: [Option<Arc<Schema>>; 2],
 	/// was the handle obtained from a reader (directly or by cloning such a handle)?
@@ -260,12 +270,15 @@ fn outcome<T>(r: std::thread::Result<Result<T, ()>>) -> Result<Option<T>, ()> {
 }
 
 impl<'f> World<'f> {
-	pub fn new(fx: &'f Fixtures, proto: Option<&'f SchemaMut>) -> World<'f> {
+	pub fn new(fx: &'f Fixtures, proto: Option<&'f fixtures::Protos>) -> World<'f> {
 		World {
 			fx,
 			proto,
 			m: None,
-			m_state: fixtures::MState::fresh(),
+			m_state: fixtures::MState::parsed(0),
+			s_wire: false,
+			arc_wire: [false, false],
+			c_wire: false,
 			s: None,
 			arcs: [None, None],
 			arc_from_reader: [false, false],
@@ -289,10 +302,48 @@ impl<'f> World<'f> {
 		}
 	}
 
-	fn parse_mut(&self) -> Result<SchemaMut, ()> {
+	fn parse_mut(&self, i: u8) -> Result<SchemaMut, ()> {
 		match self.proto {
-			Some(p) => Ok(p.clone()),
-			None => fixtures::SCHEMA_TEXT.parse::<SchemaMut>().map_err(|_| ()),
+			Some(p) => p.get(i),
+			None => fixtures::text(i).parse::<SchemaMut>().map_err(|_| ()),
+		}
+	}
+
+	fn src_wire(&self, src: Src) -> bool {
+		match src {
+			Src::S => self.s_wire,
+			Src::A => self.arc_wire[0],
+			Src::B => self.arc_wire[1],
+		}
+	}
+
+	/// The generator's picture of the graph must be the graph (machinery self-check).
+	fn check_m_state(&mut self) {
+		if let Some(m) = self.m.as_ref() {
+			if fixtures::keys_of(m) != self.m_state.nodes {
+				self.counters.mispredict += 1;
+			}
+		}
+	}
+
+	/// Known answers for a schema that is SCHEMA_TEXT on the wire: value 0 serialises to the fixture
+	/// datum, value 2 is rejected, the fixture datum deserialises to value 0. A union node whose lookup
+	/// table was never built fails these (the node is not "fully initialised").
+	fn known_answer(&mut self, wire: bool, what: &str, got: &str, want: Option<String>) {
+		if !wire {
+			return;
+		}
+		self.counters.known_answers += 1;
+		let ok = match &want {
+			Some(w) => got == w,
+			None => got.starts_with("ok:"),
+		};
+		if !ok {
+			self.findings.push(Finding {
+				class: "known-answer-differs",
+				at_op: self.step,
+				detail: format!("{what} on a schema that is {} on the wire gave {} instead of {}", "R{b:string,e:E,l:array<int>,u:[null,R]}", got, want.unwrap_or_else(|| "ok".to_owned())),
+			});
 		}
 	}
 
@@ -412,10 +463,11 @@ impl<'f> World<'f> {
 
 	fn apply_inner(&mut self, op: Op) -> String {
 		match op {
-			Op::Parse => match catch_unwind(AssertUnwindSafe(|| self.parse_mut())) {
+			Op::Parse(i) => match catch_unwind(AssertUnwindSafe(|| self.parse_mut(i))) {
 				Ok(Ok(m)) => {
 					self.m = Some(m);
-					self.m_state = fixtures::MState::fresh();
+					self.m_state = fixtures::MState::parsed(i);
+					self.check_m_state();
 					"ok".to_owned()
 				}
 				Ok(Err(())) => {
@@ -427,18 +479,21 @@ impl<'f> World<'f> {
 					"panic".to_owned()
 				}
 			},
-			Op::Build => {
-				self.m = Some(fixtures::good_graph());
-				self.m_state = fixtures::MState::fresh();
+			Op::Build(j) => {
+				self.m = Some(fixtures::build_graph(j));
+				self.m_state = fixtures::MState::built(j);
+				self.check_m_state();
 				"ok".to_owned()
 			}
 			Op::Edit(e) => match self.m.as_mut() {
 				None => self.absent(),
 				Some(m) => {
 					let ok = fixtures::edit(m, e);
+					let n = m.nodes().len();
 					self.m_state.edit(e);
+					self.check_m_state();
 					if ok {
-						format!("ok:{}", m.nodes().len())
+						format!("ok:{n}")
 					} else {
 						"noop".to_owned()
 					}
@@ -452,10 +507,19 @@ impl<'f> World<'f> {
 						Ok(Ok(s)) => {
 							self.counters.freeze_ok += 1;
 							if !predicted {
-								self.counters.mispredict += 1;
+								if self.m_state.has_dangling_key() {
+									self.findings.push(Finding {
+										class: "freeze-accepted-dangling-key",
+										at_op: self.step,
+										detail: format!("freeze returned Ok for a graph of {} nodes in which a node holds a key >= {} (key structure {:?}): the frozen schema holds a node pointer outside its node storage", self.m_state.nodes.len(), self.m_state.nodes.len(), self.m_state.nodes),
+									});
+								} else {
+									self.counters.mispredict += 1;
+								}
 							}
 							let r = format!("ok:{}:{}", fixtures::hex(s.rabin_fingerprint()), s.json());
 							if predicted {
+								self.s_wire = self.m_state.wire_ok;
 								self.put_schema(s);
 							}
 							r
@@ -474,15 +538,16 @@ impl<'f> World<'f> {
 					}
 				}
 			},
-			Op::ParseS => {
+			Op::ParseS(i) => {
 				let r = catch_unwind(AssertUnwindSafe(|| match self.proto {
-					Some(p) => p.clone().freeze().map_err(|_| ()),
-					None => fixtures::SCHEMA_TEXT.parse::<Schema>().map_err(|_| ()),
+					Some(p) => p.get(i).and_then(|m| m.freeze().map_err(|_| ())),
+					None => fixtures::text(i).parse::<Schema>().map_err(|_| ()),
 				}));
 				match r {
 					Ok(Ok(s)) => {
 						self.counters.freeze_ok += 1;
 						let r = format!("ok:{}:{}", fixtures::hex(s.rabin_fingerprint()), s.json());
+						self.s_wire = i == 0;
 						self.put_schema(s);
 						r
 					}
@@ -500,14 +565,24 @@ impl<'f> World<'f> {
 				let m = fixtures::bad_graph(g as usize);
 				match catch_unwind(AssertUnwindSafe(|| m.freeze())) {
 					Ok(Ok(_s)) => {
-						self.counters.mispredict += 1;
+						if (g as usize) < fixtures::N_DANGLING {
+							self.findings.push(Finding {
+								class: "freeze-accepted-dangling-key",
+								at_op: self.step,
+								detail: format!("freeze returned Ok for [{}]: the frozen schema holds a node pointer outside its node storage", fixtures::describe_bad(g as usize)),
+							});
+						} else {
+							self.counters.mispredict += 1;
+						}
 						"ok".to_owned()
 					}
 					Ok(Err(_)) => {
-						if (g as usize) < fixtures::N_BAD - 1 {
+						if (g as usize) < fixtures::N_DANGLING {
 							self.counters.freeze_err_unreachable_dangling += 1;
-						} else {
+						} else if (g as usize) == fixtures::BAD_EMPTY {
 							self.counters.freeze_err_other += 1;
+						} else {
+							self.counters.freeze_err_unnamed_cycle += 1;
 						}
 						"err".to_owned()
 					}
@@ -572,6 +647,7 @@ impl<'f> World<'f> {
 				Some(s) => {
 					self.arcs[0] = Some(Arc::new(s));
 					self.arc_from_reader[0] = false;
+					self.arc_wire[0] = self.s_wire;
 					"ok".to_owned()
 				}
 			},
@@ -584,6 +660,7 @@ impl<'f> World<'f> {
 						debug_assert!(self.arcs[free].is_none());
 						self.arcs[free] = Some(a);
 						self.arc_from_reader[free] = self.arc_from_reader[k];
+						self.arc_wire[free] = self.arc_wire[k];
 						"ok".to_owned()
 					}
 				}
@@ -609,6 +686,7 @@ impl<'f> World<'f> {
 				None => self.absent(),
 				Some(s) => {
 					self.c = Some(SerializerConfig::new(s));
+					self.c_wire = self.src_wire(src);
 					"ok".to_owned()
 				}
 			},
@@ -617,6 +695,12 @@ impl<'f> World<'f> {
 				Some(mut cfg) => {
 					let r = self.ser_with(&mut cfg, v);
 					self.c = Some(cfg);
+					let want = match v {
+						0 => Some(format!("ok:{}", fixtures::hex(&self.fx.datum))),
+						2 => Some("err".to_owned()),
+						_ => None,
+					};
+					self.known_answer(self.c_wire, "to_datum_vec with the long-lived SerializerConfig", &r, want);
 					r
 				}
 			},
@@ -625,7 +709,10 @@ impl<'f> World<'f> {
 				Some(s) => {
 					self.note_reader_schema_use(src);
 					let mut cfg = SerializerConfig::new(s);
-					self.ser_with(&mut cfg, 0)
+					let r = self.ser_with(&mut cfg, 0);
+					let want = Some(format!("ok:{}", fixtures::hex(&self.fx.datum)));
+					self.known_answer(self.src_wire(src), "to_datum_vec(&value0)", &r, want);
+					r
 				}
 			},
 			Op::DropC => {
@@ -645,7 +732,7 @@ impl<'f> World<'f> {
 						Tgt::Strict => outcome(catch_unwind(AssertUnwindSafe(|| serde_avro_fast::from_datum_slice::<RecRef<'static>>(slice, s).map(|v| (AnyVal::Strict(v), true)).map_err(|_| ())))),
 						Tgt::Bad => outcome(catch_unwind(AssertUnwindSafe(|| serde_avro_fast::from_datum_slice::<Bad>(slice, s).map(|_| (AnyVal::Owned(RecO { b: String::new(), e: fixtures::Sym::X, l: vec![], u: None }), false)).map_err(|_| ())))),
 					};
-					match r {
+					let res = match r {
 						Ok(Some((v, keeps_buf))) => {
 							let (e, mut leftover) = self.store_value(v, keeps_buf.then_some(buf));
 							discard(&mut leftover);
@@ -656,7 +743,14 @@ impl<'f> World<'f> {
 							self.counters.panics += 1;
 							"panic".to_owned()
 						}
+					};
+					let wire = self.src_wire(src);
+					match tgt {
+						Tgt::Cow => self.known_answer(wire, "from_datum_slice::<Rec>(fixture datum)", &res, Some(format!("ok:{:?}", fixtures::value(0)))),
+						Tgt::Bad => self.known_answer(wire, "from_datum_slice::<Bad>(fixture datum)", &res, Some("err".to_owned())),
+						_ => self.known_answer(wire, "deserialising the fixture datum", &res, None),
 					}
+					res
 				}
 			},
 			Op::Dbg(src) => match self.schema_ref(src) {
@@ -767,6 +861,7 @@ impl<'f> World<'f> {
 					debug_assert!(self.arcs[free].is_none());
 					self.arcs[free] = Some(a);
 					self.arc_from_reader[free] = true;
+					self.arc_wire[free] = true;
 					res
 				}
 			},
